@@ -145,18 +145,21 @@ PROPS = {
                 assumptions=["sync.RWMutex mutual exclusion; each Registry method is one critical section (regenerated fact, also exercised: the shim yields at every lock acquisition)"]),
     "C04": dict(lean_modules=["HW.Props.C04"], streams=[_PROC_STREAM, _LIFE_STREAM], rule=_PROC_RULE + _LIFE_RULE, assumptions=_PROC_ASSUME, spec_relevant=r"FAIL:(\S*C04|harness)"),
     "C05": dict(lean_modules=["HW.Props.C05"], streams=[_PROC_STREAM, _LIFE_STREAM], rule=_PROC_RULE + _LIFE_RULE, assumptions=_PROC_ASSUME, spec_relevant=r"FAIL:(\S*C05|harness)"),
-    "C06": dict(lean_modules=["HW.Props.C06"], facts=True, streams=[_PROC_STREAM], rule=_PROC_RULE, assumptions=_PROC_ASSUME, spec_relevant=r"FAIL:(\S*C06|harness)"),
+    "C06": dict(lean_modules=["HW.Props.C06"], facts=True, streams=[_PROC_STREAM, dict(name="tree", pkg="actor", test="TestVerifTree", shrink_key="ops", timeout=2400, timeout_thorough=3400)],
+                rule=_PROC_RULE + " || tree: histories whose actors have a restart budget of 1 (ry): the first crash restarts the actor with its children intact, the second stops the whole subtree", assumptions=_PROC_ASSUME, spec_relevant=r"FAIL:(\S*C06|harness)"),
     "C07": dict(lean_modules=["HW.Props.C07"], streams=[_PROC_STREAM, _LIFE_STREAM, _ENGINE_STREAM], rule=_PROC_RULE + _LIFE_RULE + " || " + _ENGINE_RULE, assumptions=_PROC_ASSUME, spec_relevant=r"FAIL:(\S*C07|harness)"),
     "C13": dict(lean_modules=["HW.Props.C13"], streams=[_PROC_STREAM, dict(name="mwopts", pkg="actor", test="TestVerifMwOpts")],
                 rule=_PROC_RULE + " || mwopts: 1-3 real actors spawned with WithMiddleware(common...)+WithMiddleware(own) from one shared slice (0-3 common, 0-2 spare capacity), chain observed on a user message after all spawns (exhaustive over that grid)", assumptions=_PROC_ASSUME, spec_relevant=r"FAIL:(\S*C13|harness)"),
     "C01": dict(lean_modules=["HW.Props.C01"], facts=True, streams=[_SCHED_STREAM, _LIFE_STREAM, dict(name="ctxapi", pkg="actor", test="TestVerifCtxAPI")],
                 rule=_SCHED_RULE + _LIFE_RULE + " || ctxapi: one actor makes 1-300 (sometimes 2000-5000) successive Respond / Context.Send / Forward calls to one target inside one Receive (inbox 1/2/3/1024): exact expected log", assumptions=_SCHED_ASSUME,
                 spec_relevant=r"FAIL:(\S*C01|\S*C03|harness)"),
-    "C02": dict(lean_modules=["HW.Props.C02"], facts=True, streams=[_SCHED_STREAM, _PROC_STREAM], rule=_SCHED_RULE + " || " + _PROC_RULE,
+    "C02": dict(lean_modules=["HW.Props.C02"], facts=True, streams=[_SCHED_STREAM, _PROC_STREAM, dict(name="tree", pkg="actor", test="TestVerifTree", shrink_key="ops", timeout=2400, timeout_thorough=3400)],
+                rule=_SCHED_RULE + " || " + _PROC_RULE + " || tree: every tree actor counts the Receive calls in progress; shutdowns of a parent while a child is held inside Receive (tp) must not overlap its Stopped with that call",
                 assumptions=_SCHED_ASSUME + ["'no inbox.Start after inbox.Stop' is checked on the process stream (HW.Proc.noReopen)"],
                 spec_relevant=r"FAIL:(\S*C02|harness)"),
-    "C03": dict(lean_modules=["HW.Props.C03"], facts=True, streams=[_SCHED_STREAM], rule=_SCHED_RULE, assumptions=_SCHED_ASSUME,
-                spec_relevant=r"FAIL:(C03|harness)"),
+    "C03": dict(lean_modules=["HW.Props.C03"], facts=True, streams=[_SCHED_STREAM, _PROC_STREAM], rule=_SCHED_RULE + " || " + _PROC_RULE, assumptions=_SCHED_ASSUME +
+                ["'a registered actor has an open inbox' is checked on the process stream (HW.C03.registered_actor_has_open_inbox)"],
+                spec_relevant=r"FAIL:(\S*C03|harness)"),
     "C14": dict(
         lean_modules=["HW.Props.C14"],
         facts=True,
@@ -229,7 +232,8 @@ MANIFEST_TEXT = {
     "C01": dict(
         text="Machine-checked invariants of the inbox transition system (one step per atomic action of inbox.go, unbounded thread list, any batch size >= 1): "
              "conservation delivered ++ inflight ++ queue = pushed in every reachable state; at quiescence of a never-stopped inbox delivered = pushed (exactly once, in acceptance order); "
-             "per-sender program order; composed with the ring-buffer refinement (C14). Tied to the code by running the real inbox.go+ringbuffer.go under a deterministic scheduler and "
+             "per-sender program order; composed with the ring-buffer refinement (C14) and, in HW.C01.end_to_end, with the process model (C05): for any interleaving, any split of the deliveries into batches and any "
+             "panics/restarts, what Receive saw over all incarnations of a live actor is exactly the accepted sequence, each message with its own sender. Tied to the code by running the real inbox.go+ringbuffer.go under a deterministic scheduler and "
              "replaying every explored schedule step by step in the model.",
         design_ref="DESIGN.md section 4, C01 and Appendix A",
         note="Trusted: Lean kernel; Go atomics/mutex semantics; ring operations as atomic steps (C14 + lock-shape fact); content fidelity of invokeMsg (message and sender handed to Receive) is covered by the process stream of C04/C13, not by this transition system.",
@@ -243,7 +247,8 @@ MANIFEST_TEXT = {
         technique="Lean 4 inductive invariant (counting active workers) + schedule-level differential correspondence",
     ),
     "C03": dict(
-        text="Machine-checked no-lost-wake-up: in every reachable state a started, never-stopped inbox with a backlog is running or some thread is at a (re)scheduling instruction; hence every quiescent state has an empty queue and everything delivered. "
+        text="Machine-checked no-lost-wake-up: in every reachable state a started, never-stopped inbox with a backlog is running or some thread is at a (re)scheduling instruction; hence every quiescent state has an empty queue and everything delivered; every schedule terminates (HW.C03.terminates) and every maximal run has delivered everything; at process level (HW.C03.registered_actor_has_open_inbox) "
+             "an actor that is still registered - whatever panics, restarts and replays happened - has an open inbox, so what senders are allowed to put there is not stranded. "
              "Safety form of the liveness claim ('eventually' assumes a fair Go scheduler). Tied to the code by schedule exploration of the real inbox with exact replay in the model.",
         design_ref="DESIGN.md section 4, C02/C03 and Appendix A",
         note="Trusted: Lean kernel; fairness of the Go scheduler (not modelled); ring operations as atomic steps.",
@@ -317,7 +322,8 @@ MANIFEST_TEXT = {
     ),
     "C18": dict(
         text="Machine-checked for every previous view and every snapshot (growing, shrinking, repeated, duplicate entries): after handleMembers the member ids are exactly the snapshot's ids; join events = ids new minus old, "
-             "leave events = old minus new, each exactly once, none for stayers; HasKind(k) iff some member of the view advertises k (given the observing node is in every snapshot). Tied to the code by a real Cluster/Agent actor "
+             "leave events = old minus new, each exactly once, none for stayers; HasKind(k) iff some member of the view advertises k (given the observing node is in every snapshot); lifted to EVERY sequence of snapshots: the view is the last snapshot "
+             "(history_view_is_last_snapshot) and for every id joins - leaves published so far = (in the view now) - (in the view at the start) (history_events_balance). Tied to the code by a real Cluster/Agent actor "
              "driven through the public API (Members, HasKind, event stream).",
         design_ref="DESIGN.md section 4, C18",
         note="Trusted: Lean kernel; Go map iteration order (everything compared as sorted sets); request/response barrier (C11) and event-stream order (C12) are used by the harness.",
@@ -325,10 +331,11 @@ MANIFEST_TEXT = {
     ),
     "C20": dict(
         text="Machine-checked: a handshake adds the peer, replies with the complete list and reports it; a member list adds every member in it; an unreachable report for a member's address removes exactly that member and "
-             "tells the agent; for a non-member address the handler is the identity (nothing changes, nobody is told). Tied to the code by invoking the real SelfManaged.Receive for every message (Started replaced so that "
+             "tells the agent; for a non-member address the handler is the identity (nothing changes, nobody is told); and as a REFINEMENT over every history (history_refines_set_semantics): for all sequences of handshakes, lists and "
+             "unreachable reports the member list is, as a duplicate-free set of ids, exactly what the abstract set semantics computes. Tied to the code by invoking the real SelfManaged.Receive for every message (Started replaced so that "
              "zeroconf never starts), with an incarnation counter that detects a crash-restart.",
         design_ref="DESIGN.md section 4, C20",
-        note="Trusted: Lean kernel; distinct member hosts; zeroconf discovery, the ping timer and the event-stream child are not modelled.",
+        note="Trusted: Lean kernel; distinct member hosts; zeroconf discovery and the ping timer are not modelled; the event-stream child that turns RemoteUnreachableEvent into memberLeave is exercised by the harness (op ur) but is the identity in the model.",
         technique="Lean 4 theorems over a list model of the provider's MemberSet + history-level differential correspondence",
     ),
     "C11": dict(
